@@ -401,8 +401,66 @@ def explore_ints(chunk):
     return agg
 
 
+OUT_OF_RANGE = [-1, -2, -2 ** 31, 2 ** 32, 2 ** 32 + 5, 2 ** 40 + 3, -2 ** 40]
+
+
+def check_masking(agg):
+    """operands outside the 32-bit range: either rejected, or treated like
+    their low 32 bits - in particular the same way for every shift count
+    (counts 0 and 32 included)"""
+    for a in OUT_OF_RANGE:
+        for fn in ("rol", "ror"):
+            for n in (0, 1, 31, 32, 33):
+                r1 = run(fn, a=a, n=n)
+                r2 = run(fn, a=a & M32, n=n)
+                agg.count("steps", 2)
+                same = r1[0] == "rt" or (
+                    r1[0] == "value" and r2[0] == "value" and core.strict_eq(
+                        core.from_value(r1[1]), core.from_value(r2[1])))
+                if fn == "shr" and a < 0:
+                    continue      # sign extension of a right shift: open
+                if not same:
+                    agg.violation(
+                        {"fn": fn, "cmp": "masking"},
+                        {"fn": fn, "args": {"a": a, "n": n},
+                         "cmp": "masking"},
+                        "the result for the low 32 bits, or an error",
+                        core.show_raw(r1), size=n)
+
+
+BIG_MEANS = [(2 ** 80, 1, -2 ** 80, 3), (2 ** 53 + 1, 1, 1, 1),
+             (2 ** 60, 2 ** 60, 2), (10 ** 30, -10 ** 30, 7),
+             (2 ** 53, 2 ** 53 + 2), (3 ** 40, 1)]
+
+
+def check_big_means(agg):
+    """the mean of exact ints: the exact sum divided by the count (rounded
+    once), whatever the order of the elements"""
+    from fractions import Fraction
+    for ms in BIG_MEANS:
+        exact = Fraction(sum(ms), len(ms))
+        for perm in set(itertools.permutations(ms)):
+            r = run("mean", a=list(perm))
+            agg.count("steps")
+            ok = r[0] == "value" and isinstance(
+                core.from_value(r[1]), (int, float))
+            if ok:
+                got = core.from_value(r[1])
+                tol = abs(float(exact)) * 2.0 ** -51
+                ok = abs(Fraction(got) - exact) <= Fraction(tol) + 0
+            if not ok:
+                agg.violation({"fn": "mean", "cmp": "exact-sum"},
+                              {"fn": "mean", "args": {"a": list(perm)},
+                               "cmp": "bigmean"}, float(exact),
+                              core.show_raw(r), size=len(perm))
+
+
 def explore_words(chunk):
     agg = core.Agg()
+    if chunk.get("extras"):
+        check_masking(agg)
+        check_big_means(agg)
+        return agg
     for a in chunk["words"]:
         want_strict(agg, "bit_not", {"a": a}, M32 - a)
         for b in W:
@@ -439,6 +497,17 @@ def replay(case, verbose=False):
             want_error(a, fn, kw)
         if verbose:
             print("expected:", case.get("_exp", "language error"))
+        return bool(a.viol)
+    if case.get("cmp") == "masking":
+        a = core.Agg()
+        check_masking(a)
+        hit = [v for k, (sz, v) in a.viol.items()
+               if v["case"]["args"] == case["args"]
+               and v["case"]["fn"] == fn]
+        return bool(hit)
+    if case.get("cmp") == "bigmean":
+        a = core.Agg()
+        check_big_means(a)
         return bool(a.viol)
     # recompute by re-running the generating check on the arguments
     if fn in ("abs", "sign", "gcd", "lcm", "pow"):
@@ -527,7 +596,8 @@ def main(tier, seed):
         {"ints": c, "ranges": r} for c, r in zip(
             core.chunked(I80, core.NPROC),
             core.chunked(list(range(-3, 6)), core.NPROC) + [[]] * 16)]))
-    agg.merge(core.pmap(explore_words, [{"words": [w]} for w in W]))
+    agg.merge(core.pmap(explore_words, [{"words": [w]} for w in W] +
+                        [{"extras": True}]))
     core.finish(
         PID, tier, seed, agg, t0,
         rule=(f"{len(lists)} lists (all of length <= {maxl} over {U}), "
